@@ -1723,7 +1723,7 @@ OPEN_CONSTRUCTORS = ("csr/reg:Bridge.__init__", "memory:ResourceInfo.__init__")
 NO_OWN_REFUSALS = ("wishbone/bus:Interface.__init__", "csr/bus:Interface.__init__", "csr/bus:Element.__init__", "event:Source.__init__")
 
 
-def arith_refusal_atoms(rep, rule, idx, spec, allowed, allow_if=None, what=None):
+def arith_refusal_atoms(rep, rule, idx, spec, allowed, allow_if=None, what=None, aliases=None):
     """No *extra* arithmetic refusal: every arithmetic test (%, //, &, <<, *) that guards a raise of `spec` is one of the
     documented ones.  A test with the same operators on other quantities (an address checked against the per-call alignment
     instead of the map's) refuses legal calls: a violation.  Other unknown arithmetic is undecided."""
@@ -1734,6 +1734,14 @@ def arith_refusal_atoms(rep, rule, idx, spec, allowed, allow_if=None, what=None)
     allowed_atoms = []
     local = {k: v for k, v in c.t.final_env.items() if isinstance(v, tuple) and v and v[0] not in ('localfn', 'localproc', 'listacc')
              and k not in c.fi.params}
+    # names the documented tests use for derived quantities, whatever the function calls its own locals
+    for nm, text in (aliases or {}).items():
+        if nm not in local:
+            try:
+                v_ = c.norm(c.parse(text))
+                local[nm] = ('phi', v_[1], v_[2], v_[3]) if v_[0] == 'ifexp' else v_
+            except Exception:
+                pass
     for t in allowed:
         allowed_atoms += _arith_atoms(c, c.eng.cond(c.parse(t, local)))
     ARITH = ('%', '//', '&', '|', '^', '<<', '>>', '*', '**', 'ceildiv', 'bit_length')
